@@ -159,6 +159,14 @@ func opsFor(round, k int, jt, pt, tt reflect.Type) []c09Op {
 		}
 		return "stable"
 	}
+	// twin types for the proto pointer / value operation: ptwin is used by the goroutines, its twin here and now, alone
+	ptwin, ptwinAlone := freshProtoType(), freshProtoType()
+	ta := reflect.New(ptwinAlone)
+	ta.Elem().Field(1).SetString("s" + strconv.Itoa(k))
+	tb, terr := proto.Marshal(ta.Interface())
+	tn := proto.Size(ta.Interface())
+	tbv, terrv := proto.Marshal(ta.Elem().Interface())
+	ptwinWant := fmt.Sprintf("%x|%d|%v|%x|%v", tb, tn, terr, tbv, terrv)
 	return []c09Op{
 		{"json.Marshal", func() string { b, err := json.Marshal(jv.Interface()); return fmt.Sprintf("%s|%v", b, err) }},
 		// the first use of a type by value and by pointer, in either order or at once (result held = judged on its own, here against encoding/json)
@@ -254,6 +262,20 @@ func opsFor(round, k int, jt, pt, tt reflect.Type) []c09Op {
 		{"proto.Marshal+Size", func() string {
 			b, err := proto.Marshal(pv.Interface())
 			return fmt.Sprintf("%d|%d|%v", len(b), proto.Size(pv.Interface()), err)
+		}},
+		{"proto.Marshal+Size(by pointer, leading fields zero; result held)", func() string {
+			// what a call returns alone is known from a twin type (same shape, another name) that only this operation's
+			// preparation has ever used: the value codec and the pointer codec of a type are built and published apart
+			v := reflect.New(ptwin)
+			v.Elem().Field(1).SetString("s" + strconv.Itoa(k))
+			b, err := proto.Marshal(v.Interface())
+			n := proto.Size(v.Interface())
+			bv, errv := proto.Marshal(v.Elem().Interface())
+			got := fmt.Sprintf("%x|%d|%v|%x|%v", b, n, err, bv, errv)
+			if got != ptwinWant {
+				return got + " instead of " + ptwinWant
+			}
+			return "stable"
 		}},
 		{"proto.Unmarshal", func() string {
 			b, _ := proto.Marshal(pv.Interface())
